@@ -15,7 +15,9 @@ META = dict(
                 'leaf z3 decides minimality against every admissible simple path enumerated independently by the harness',
     bounds=['3-4 ROADM sites (5 thorough), every link bidirectional, symbolic length in [1, 1000] km per link (quick) / per direction (thorough)',
             'include lists of 0-2 ROADM names, LOOSE/STRICT, plus unknown names and transceiver names',
-            'shortest = minimal fibre length up to 1 m (non-fibre hops carry a 0.01 m weight in the implementation)'],
+            'shortest = minimal fibre length up to 1 m (non-fibre hops carry a 0.01 m weight in the implementation)',
+            'H11b: triangle and ring4 through add_missing_elements_in_network, one link up to 500 km (split into 1-6 spans), the others < 140 km',
+            'H11c: pairs of requests of one disjunction group on triangle / ring4+chord / mesh4, each with its own include option'],
     assumptions=['floats as reals', 'ties between equally long (partial) routes are excluded: fibre lengths in generic position '
                  '(the property does not rule on ties)'],
     stubs=[],
